@@ -30,18 +30,18 @@ EXPLANATION = (
 
 
 def run(ctx: Ctx):
-    check_status_use(ctx)
-    check_simplex_verdicts(ctx)
-    check_interior(ctx)
-    check_no_raising_float_ops(ctx)
+    ctx.step(check_status_use)
+    ctx.step(check_simplex_verdicts)
+    ctx.step(check_interior)
+    ctx.step(check_no_raising_float_ops)
     from .sat_common import _need
 
     p2 = ctx.func("simplex", "_phase2")
-    _need(ctx, "C03-O7", "R21 search discipline", p2, "entering column: the first non-basic column with a negative reduced cost (Bland); none -> OPTIMAL", ["enter = -1\n        for j in range(n_cols - 1):\n            if j not in basis_set and matrix[-1][j] < -eps:\n                enter = j\n                break", "if enter == -1:\n            return (Status.OPTIMAL, iteration, matrix, basis, basis_set)"])
-    _need(ctx, "C03-O7", "R30 ACCUMULATOR-PAIRING", p2, "leaving row: minimum ratio over the rows with a positive entry, ties by the smaller basic index; no such row -> UNBOUNDED", ["leave, min_ratio = (-1, float('inf'))", "if matrix[i][enter] > eps:\n                ratio = matrix[i][-1] / matrix[i][enter]\n                if ratio < min_ratio - eps:\n                    min_ratio, leave = (ratio, i)\n                elif abs(ratio - min_ratio) <= eps:\n                    if leave == -1 or basis[i] < basis[leave]:\n                        leave = i", "if leave == -1:\n            return (Status.UNBOUNDED, iteration, matrix, basis, basis_set)", "for i in range(m):"])
-    _need(ctx, "C03-O7", "R16 PAIRED-EFFECTS", p2, "after the pivot the basis label and the basis set move together", ["matrix = _pivot(matrix, m, leave, enter, eps)\n        basis_set.discard(basis[leave])\n        basis[leave] = enter\n        basis_set.add(enter)"])
+    ctx.step(_need, "C03-O7", "R21 search discipline", p2, "entering column: the first non-basic column with a negative reduced cost (Bland); none -> OPTIMAL", ["enter = -1\n        for j in range(n_cols - 1):\n            if j not in basis_set and matrix[-1][j] < -eps:\n                enter = j\n                break", "if enter == -1:\n            return (Status.OPTIMAL, iteration, matrix, basis, basis_set)"])
+    ctx.step(_need, "C03-O7", "R30 ACCUMULATOR-PAIRING", p2, "leaving row: minimum ratio over the rows with a positive entry, ties by the smaller basic index; no such row -> UNBOUNDED", ["leave, min_ratio = (-1, float('inf'))", "if matrix[i][enter] > eps:\n                ratio = matrix[i][-1] / matrix[i][enter]\n                if ratio < min_ratio - eps:\n                    min_ratio, leave = (ratio, i)\n                elif abs(ratio - min_ratio) <= eps:\n                    if leave == -1 or basis[i] < basis[leave]:\n                        leave = i", "if leave == -1:\n            return (Status.UNBOUNDED, iteration, matrix, basis, basis_set)", "for i in range(m):"])
+    ctx.step(_need, "C03-O7", "R16 PAIRED-EFFECTS", p2, "after the pivot the basis label and the basis set move together", ["matrix = _pivot(matrix, m, leave, enter, eps)\n        basis_set.discard(basis[leave])\n        basis[leave] = enter\n        basis_set.add(enter)"])
     pv = ctx.func("simplex", "_pivot")
-    _need(ctx, "C03-O7", "R16 PAIRED-EFFECTS", pv, "pivot: the pivot row is scaled to a unit entry, every other row (objective row included) is cleared in the pivot column", ["inv = 1.0 / pivot_val\n    for j in range(n_cols):\n        matrix[row][j] *= inv", "for i in range(m + 1):\n        if i != row:\n            f = matrix[i][col]\n            if abs(f) > eps:\n                for j in range(n_cols):\n                    matrix[i][j] -= f * matrix[row][j]", "return matrix"])
+    ctx.step(_need, "C03-O7", "R16 PAIRED-EFFECTS", pv, "pivot: the pivot row is scaled to a unit entry, every other row (objective row included) is cleared in the pivot column", ["inv = 1.0 / pivot_val\n    for j in range(n_cols):\n        matrix[row][j] *= inv", "for i in range(m + 1):\n        if i != row:\n            f = matrix[i][col]\n            if abs(f) > eps:\n                for j in range(n_cols):\n                    matrix[i][j] -= f * matrix[row][j]", "return matrix"])
     # solve_lp gives no verdict of its own: every status it returns was computed by a phase (phase 1 decides
     # feasibility before phase 2 may say UNBOUNDED)
     slp = ctx.func("simplex", "solve_lp")
@@ -51,18 +51,18 @@ def run(ctx: Ctx):
         if st_ is not None and ast.unparse(st_).startswith("Status."):
             lits.append(s_)
     ctx.ob("C03-O1", "R3 STATUS-USE", slp, "solve_lp publishes no status literal of its own (statuses come from _phase1 / _phase2)", not lits, f"`{ast.unparse(lits[0].call)[:70]}`: a verdict decided before the phases ran skips the feasibility phase - an infeasible LP with an unlimited improving variable is called UNBOUNDED" if lits else "", node=lits[0].call if lits else slp.node)
-    _need(ctx, "C03-O7", "R16 PAIRED-EFFECTS", slp, "the tableau gets one slack column per row and the right-hand side last; phase 1 runs exactly when some right-hand side is negative, and phase 2 follows with the remaining budget", ["row = array('d', A[i])\n        row.extend([0.0] * m)\n        row[n + i] = 1.0\n        row.append(b[i])\n        matrix.append(row)", "obj = array('d', weights)\n    obj.extend([0.0] * (m + 1))\n    matrix.append(obj)", "basis = array('i', range(n, n + m))", "if any((matrix[i][-1] < -eps for i in range(m))):\n        status, iters, matrix, basis, basis_set = _phase1(matrix, basis, basis_set, m, n, eps, max_iter)", "max_iter -= iters", "status, iters2, matrix, basis, basis_set = _phase2(matrix, basis, basis_set, m, eps, max_iter)\n    return _extract(matrix, basis, m, n, status, iters + iters2, minimize)", "weights = list(c) if minimize else [-ci for ci in c]"])
+    ctx.step(_need, "C03-O7", "R16 PAIRED-EFFECTS", slp, "the tableau gets one slack column per row and the right-hand side last; phase 1 runs exactly when some right-hand side is negative, and phase 2 follows with the remaining budget", ["row = array('d', A[i])\n        row.extend([0.0] * m)\n        row[n + i] = 1.0\n        row.append(b[i])\n        matrix.append(row)", "obj = array('d', weights)\n    obj.extend([0.0] * (m + 1))\n    matrix.append(obj)", "basis = array('i', range(n, n + m))", "if any((matrix[i][-1] < -eps for i in range(m))):\n        status, iters, matrix, basis, basis_set = _phase1(matrix, basis, basis_set, m, n, eps, max_iter)", "max_iter -= iters", "status, iters2, matrix, basis, basis_set = _phase2(matrix, basis, basis_set, m, eps, max_iter)\n    return _extract(matrix, basis, m, n, status, iters + iters2, minimize)", "weights = list(c) if minimize else [-ci for ci in c]"])
     p1 = ctx.func("simplex", "_phase1")
-    _need(ctx, "C03-O7", "R16 PAIRED-EFFECTS", p1, "after phase 1 every basic artificial is pivoted out over all structural and slack columns (every column that is not artificial), with its basis label", ["n_cols = len(matrix[0])\n    for i in range(m):\n        if basis[i] in art_cols:\n            for j in range(n_cols - 1 - len(art_cols)):\n                if j not in basis_set and abs(matrix[i][j]) > eps:\n                    matrix = _pivot(matrix, m, i, j, eps)\n                    basis_set.discard(basis[i])\n                    basis[i] = j\n                    basis_set.add(j)\n                    break"], "a scan that stops short of the last non-artificial column leaves an artificial basic; it is deleted with its column and phase 2 lets it grow")
-    _need(ctx, "C03-O7", "R16 PAIRED-EFFECTS", p1, "the artificial objective is the sum of the artificial rows; afterwards the artificial columns are removed and the original objective is restored and priced out against the basis", ["for col in art_cols:\n        matrix[-1][col] = 1.0", "for i in range(m):\n        if basis[i] in art_cols:\n            for j in range(n_cols):\n                matrix[-1][j] -= matrix[i][j]", "for _ in art_cols:\n        for row in matrix:\n            del row[-2]", "matrix[-1] = orig_obj", "var = basis[i]\n        if var < n_cols - 1:\n            cost = matrix[-1][var]\n            if abs(cost) > eps:\n                for j in range(n_cols):\n                    matrix[-1][j] -= cost * matrix[i][j]"])
+    ctx.step(_need, "C03-O7", "R16 PAIRED-EFFECTS", p1, "after phase 1 every basic artificial is pivoted out over all structural and slack columns (every column that is not artificial), with its basis label", ["n_cols = len(matrix[0])\n    for i in range(m):\n        if basis[i] in art_cols:\n            for j in range(n_cols - 1 - len(art_cols)):\n                if j not in basis_set and abs(matrix[i][j]) > eps:\n                    matrix = _pivot(matrix, m, i, j, eps)\n                    basis_set.discard(basis[i])\n                    basis[i] = j\n                    basis_set.add(j)\n                    break"], "a scan that stops short of the last non-artificial column leaves an artificial basic; it is deleted with its column and phase 2 lets it grow")
+    ctx.step(_need, "C03-O7", "R16 PAIRED-EFFECTS", p1, "the artificial objective is the sum of the artificial rows; afterwards the artificial columns are removed and the original objective is restored and priced out against the basis", ["for col in art_cols:\n        matrix[-1][col] = 1.0", "for i in range(m):\n        if basis[i] in art_cols:\n            for j in range(n_cols):\n                matrix[-1][j] -= matrix[i][j]", "for _ in art_cols:\n        for row in matrix:\n            del row[-2]", "matrix[-1] = orig_obj", "var = basis[i]\n        if var < n_cols - 1:\n            cost = matrix[-1][var]\n            if abs(cost) > eps:\n                for j in range(n_cols):\n                    matrix[-1][j] -= cost * matrix[i][j]"])
     ex = ctx.func("simplex", "_extract")
-    _need(ctx, "C03-O7", "R5 PAIRING", ex, "the point is read off the basic rows of the structural variables; the objective is the negated corner cell, mirrored back for maximisation", ["solution = [0.0] * n", "for i in range(m):\n        if basis[i] < n:\n            solution[basis[i]] = matrix[i][-1]", "obj = -matrix[-1][-1]\n    if not minimize:\n        obj = -obj", "return Result(tuple(solution), obj, iters, iters, status)"])
+    ctx.step(_need, "C03-O7", "R5 PAIRING", ex, "the point is read off the basic rows of the structural variables; the objective is the negated corner cell, mirrored back for maximisation", ["solution = [0.0] * n", "for i in range(m):\n        if basis[i] < n:\n            solution[basis[i]] = matrix[i][-1]", "obj = -matrix[-1][-1]\n    if not minimize:\n        obj = -obj", "return Result(tuple(solution), obj, iters, iters, status)"])
     sl = ctx.func("interior_point", "_step_length")
     tsl = ast.unparse(sl.node)
     ctx.ob("C03-O3", "R18 table", sl, "step length = min(1, min over decreasing components of -v/dv), never negative (iterates stay non-negative)", "alpha = 1.0" in tsl and "if dv[j] < -1e-12:\n            alpha = min(alpha, -v[j] / dv[j])" in tsl and "return max(0.0, alpha)" in tsl and "for j in range(n):" in tsl, "", node=sl.node)
-    check_pivot_thresholds(ctx)
-    check_sign_units(ctx, "simplex", "solve_lp", ["_extract"])
-    check_sign_units(ctx, "interior_point", "solve_lp_interior", [])
+    ctx.step(check_pivot_thresholds)
+    ctx.step(check_sign_units, "simplex", "solve_lp", ["_extract"])
+    ctx.step(check_sign_units, "interior_point", "solve_lp_interior", [])
     generic_sweeps(ctx)
 
 
